@@ -83,6 +83,10 @@ func (r *Root) Setter(target Gindex, expand bool) (Link, error) {
 		return Identity, nil
 	}
 	if expand {
+		// only the summary of a zero subtree can be expanded
+		if *r != ZeroHashes[target.Depth()] {
+			return nil, NavigationError
+		}
 		// the children of the expanded anchor are one level below it
 		child := ZeroNode(target.Depth() - 1)
 		p := NewPairNode(child, child)
